@@ -316,6 +316,117 @@ func registerIntrinsics(e *Engine) {
 	reg("(*sync.RWMutex).RLock", func(ex *Exec, fn *ssa.Function, a []Value) Value { return ex.mutexOp(a[0].(Ptr), true) })
 	reg("(*sync.RWMutex).RUnlock", func(ex *Exec, fn *ssa.Function, a []Value) Value { return ex.mutexOp(a[0].(Ptr), false) })
 
+	// ---- sort.Slice / SliceStable (reflection-based in the library) ------------------
+	sortSlice := func(ex *Exec, fn *ssa.Function, a []Value) Value {
+		itf, _ := a[0].(Iface)
+		sl, ok := itf.V.(Slice)
+		if !ok {
+			panic(ex.unsupported("sort.Slice of non-slice"))
+		}
+		less := a[1]
+		// insertion sort (stable), elements swapped in place so that the closure sees them
+		for i := 1; i < len(sl); i++ {
+			for j := i; j > 0; j-- {
+				r := ex.call(less, []Value{int64(j), int64(j - 1)}, nil)
+				if !ex.branch(r) {
+					break
+				}
+				sl[j], sl[j-1] = sl[j-1], sl[j]
+			}
+		}
+		return nil
+	}
+	reg("sort.Slice", sortSlice)
+	reg("sort.SliceStable", sortSlice)
+	// ---- sync.Pool: a per-execution free list (Get may also return a fresh value) ----
+	reg("(*sync.Pool).Get", func(ex *Exec, fn *ssa.Function, a []Value) Value {
+		p := a[0].(Ptr)
+		ex.noteWrite(p)
+		if l := ex.pools[p]; len(l) > 0 {
+			v := l[len(l)-1]
+			ex.pools[p] = l[:len(l)-1]
+			return v
+		}
+		st := (*p).(Struct)
+		newFn := st[len(st)-1]
+		if isNilVal(newFn) || fnIsNil(newFn) {
+			return Iface{}
+		}
+		if f, ok := newFn.(*ssa.Function); ok && f == nil {
+			return Iface{}
+		}
+		return ex.call(newFn, nil, nil)
+	})
+	reg("(*sync.Pool).Put", func(ex *Exec, fn *ssa.Function, a []Value) Value {
+		p := a[0].(Ptr)
+		ex.noteWrite(p)
+		if ex.pools == nil {
+			ex.pools = map[Ptr][]Value{}
+		}
+		ex.pools[p] = append(ex.pools[p], a[1])
+		return nil
+	})
+	// ---- sync/atomic typed values: sequentially consistent accesses (visible operations) ----
+	atomicField := func(ex *Exec, recv Value) *Value {
+		p := recv.(Ptr)
+		if p == nil {
+			panic(ex.rtPanic("invalid memory address or nil pointer dereference"))
+		}
+		st := (*p).(Struct)
+		return &st[len(st)-1]
+	}
+	for _, tn := range []string{"Int32", "Int64", "Uint32", "Uint64", "Bool", "Uintptr"} {
+		tname := tn
+		reg("(*sync/atomic."+tname+").Load", func(ex *Exec, fn *ssa.Function, a []Value) Value {
+			ex.atomicOp(a[0].(Ptr))
+			f := atomicField(ex, a[0])
+			if tname == "Bool" {
+				return (*f).(int64) != 0
+			}
+			return *f
+		})
+		reg("(*sync/atomic."+tname+").Store", func(ex *Exec, fn *ssa.Function, a []Value) Value {
+			ex.atomicOp(a[0].(Ptr))
+			f := atomicField(ex, a[0])
+			if tname == "Bool" {
+				if a[1].(bool) {
+					*f = int64(1)
+				} else {
+					*f = int64(0)
+				}
+				return nil
+			}
+			*f = a[1]
+			return nil
+		})
+		reg("(*sync/atomic."+tname+").Add", func(ex *Exec, fn *ssa.Function, a []Value) Value {
+			ex.atomicOp(a[0].(Ptr))
+			f := atomicField(ex, a[0])
+			*f = ex.binop(token.ADD, fn.Signature.Params().At(0).Type(), *f, a[1])
+			return *f
+		})
+		reg("(*sync/atomic."+tname+").CompareAndSwap", func(ex *Exec, fn *ssa.Function, a []Value) Value {
+			ex.atomicOp(a[0].(Ptr))
+			f := atomicField(ex, a[0])
+			cur := *f
+			if tname == "Bool" {
+				cur = cur.(int64) != 0
+			}
+			if ex.branch(ex.equal(cur, a[1])) {
+				if tname == "Bool" {
+					if a[2].(bool) {
+						*f = int64(1)
+					} else {
+						*f = int64(0)
+					}
+				} else {
+					*f = a[2]
+				}
+				return true
+			}
+			return false
+		})
+	}
 	registerVerif(e, reg)
 	registerTok(e, reg)
 	registerVal(e, reg)
